@@ -145,19 +145,6 @@ theorem expand_region (e : Ext) (he : C03.wf e) (p : Pt) : p ∈ regionL (expand
     have hpo : p ∈ region o := ⟨rfl, rfl, rfl⟩
     exact ⟨o, (mem_expandExt e o hwf).mpr ⟨rfl, rfl, (meets_iff e o).mp ⟨p, hp, hpo⟩⟩, hpo⟩
 
-theorem nodup_flatMap_map_inj {α β γ} (l : List α) (m : List β) (g : α → β → γ) (hl : l.Nodup) (hm : m.Nodup)
-    (hinj : ∀ a b a' b', g a b = g a' b' → a = a' ∧ b = b') :
-    (l.flatMap fun a => m.map fun b => g a b).Nodup := by
-  rw [List.Nodup, List.pairwise_flatMap]
-  constructor
-  · intro a _
-    exact List.Pairwise.map _ (fun b b' (h : b ≠ b') heq => h (hinj _ _ _ _ heq).2) hm
-  · refine List.Pairwise.imp ?_ hl
-    intro a a' (hne : a ≠ a') x hx y hy heq
-    obtain ⟨b, _, rfl⟩ := List.mem_map.mp hx
-    obtain ⟨b', _, rfl⟩ := List.mem_map.mp hy
-    exact hne (hinj _ _ _ _ heq).1
-
 /-- **expand_nodup** -/
 theorem expand_nodup (e : Ext) : (expandExt e).Nodup := by
   unfold expandExt
